@@ -1,4 +1,6 @@
 import AmiscProps.C01
 import AmiscProps.C02
+import AmiscProps.C03
 import AmiscProps.C05
+import AmiscProps.C11
 import AmiscProps.C18
